@@ -31,6 +31,7 @@ type tvCase struct {
 	JsonTypes []string          `json:"jsonTypes,omitempty"`
 	Tokens    map[string]string `json:"tokens,omitempty"`
 	Literals  [][]string        `json:"literals,omitempty"`
+	Strings   []string          `json:"strings,omitempty"`
 }
 
 func scannerKind(lit string) (kind string, panicked bool) {
@@ -126,6 +127,12 @@ func tvEval(c *core.Ctx, cs tvCase) []core.Finding {
 			}
 			if schema.SchemaType("decimal").ToTokenType() != cs.Tokens["decimal"] {
 				fs = append(fs, core.Finding{Class: "tokentype:decimal", What: "token type of decimal is not number"})
+			}
+			for _, l := range cs.Strings {
+				fs = append(fs, tvLiteral(l, "string")...)
+				if sk, p := scannerKind(l); p || sk != "string" {
+					fs = append(fs, core.Finding{Class: "literal-kind:string:" + strings.Trim(l, `"`), What: fmt.Sprintf("scanner classifies %s as %s, expected string", l, sk)})
+				}
 			}
 			for _, l := range cs.Literals {
 				fs = append(fs, tvLiteral(l[0], l[1])...)
